@@ -3,8 +3,10 @@ package c06
 import (
 	"encoding/json"
 	"fmt"
+	"io"
 	"net/http"
 	"sort"
+	"strings"
 	"sync"
 	"sync/atomic"
 	"time"
@@ -71,8 +73,11 @@ func endToEnd(r *vkit.R) {
 		filler := int32(1)
 		build := func() *proxyv1alpha1.UpstreamCluster {
 			return bed.BuildCluster(bed.ClusterSpec{Name: host, Servers: []string{stub.URL},
-				Policies: []proxyv1alpha1.DispatchPolicy{bed.CatchAllPolicy(nil, tbName)},
-				Schemas:  tbSpec(qps, burst, "", filler).Schemas})
+				// two policies share the one schema: "admitted under it" counts both
+				Policies: []proxyv1alpha1.DispatchPolicy{
+					{Strategy: proxyv1alpha1.RoundRobin, FlowControlSchemaName: tbName, Rules: []proxyv1alpha1.DispatchPolicyRule{{Verbs: []string{"*"}, APIGroups: []string{"*"}, Resources: []string{"events"}}}},
+					bed.CatchAllPolicy(nil, tbName)},
+				Schemas: tbSpec(qps, burst, "", filler).Schemas})
 		}
 		obj := build()
 		if sr := gw.Apply(obj); sr.Err != nil || sr.Panic != nil || sr.Requeue {
@@ -107,11 +112,21 @@ func endToEnd(r *vkit.R) {
 					for k := 0; k < 24/clients+int(burst)/clients+2; k++ {
 						num := atomic.AddInt64(&idn, 1)
 						id := fmt.Sprintf("c06-%d", num)
-						resource := "pods"
-						if num%2 == 0 {
+						resource, method, query := "pods", "GET", ""
+						var body io.Reader
+						switch num % 6 {
+						case 0, 2, 4:
 							resource = "events"
+						case 1:
+							method, body = "POST", strings.NewReader(`{"kind":"Pod","apiVersion":"v1","metadata":{"name":"p"}}`)
+						case 3:
+							query = "?watch=true" // long-running for the generic filters
 						}
-						req := bed.NewRequest("GET", host, "/api/v1/namespaces/default/"+resource, tok, id, nil)
+						req := bed.NewRequest(method, host, "/api/v1/namespaces/default/"+resource+query, tok, id, body)
+						if body != nil {
+							req.Header.Set("Content-Type", "application/json")
+						}
+						resource = method + " " + resource + query
 						tc := bed.Now()
 						resp := gw.Do(req)
 						tr := bed.Now()
@@ -139,7 +154,7 @@ func endToEnd(r *vkit.R) {
 			forwarded := cnt > 0
 			w := map[string]interface{}{"qps": qps, "burst": burst, "request": x.id, "resource": x.resource, "status": x.status, "body": string(x.body), "times_received_by_upstream": cnt}
 			class := "other"
-			if x.resource == "events" {
+			if strings.Contains(x.resource, "events") {
 				class = "events"
 			}
 			switch {
@@ -161,8 +176,12 @@ func endToEnd(r *vkit.R) {
 						fmt.Sprintf("a request that was not forwarded under token bucket qps=%d burst=%d was answered %d %.120q instead of a 429 Status", qps, burst, x.status, x.body), w)
 				} else {
 					r.Count("e2e_refusals_429", 1)
-					if x.resource == "events" {
+					if class == "events" {
 						r.Count("e2e_refusals_429_on_events", 1)
+					} else if strings.HasPrefix(x.resource, "POST") {
+						r.Count("e2e_refusals_429_on_post", 1)
+					} else if strings.Contains(x.resource, "watch") {
+						r.Count("e2e_refusals_429_on_watch", 1)
 					}
 				}
 			}
